@@ -4,6 +4,8 @@ from plint.flow import Flow
 from plint.ir import calls, strip_casts, cv, line, show, root_var, walk, ap
 from plint.units import AnalysisBroken
 
+import re
+FAMILY_KEY = re.compile(r"(->|\.)\w*family$")      # `addr->family`, `sa->sa_family`, `hdr.ss_family`: the family selects the branch under any field name
 AF_INET, AF_INET6 = 2, 10
 AI_NUMERICHOST = 4
 MEMCPY = ("memcpy", "__builtin_memcpy", "__builtin___memcpy_chk")
@@ -107,7 +109,7 @@ def run(prog, rep):
 
         def fam(st):
             for (fk, fop, fv) in st:
-                if fop == "==" and isinstance(fv, int) and (fk in famvars or fk.endswith("->family")):
+                if fop == "==" and isinstance(fv, int) and (fk in famvars or FAMILY_KEY.search(fk)):
                     return fv
             return None
 
@@ -424,7 +426,7 @@ def family_stores(fn, u, field):
                 if l is not None and l["k"] == "member" and l["field"] == field and cv(n["r"]) is not None:
                     fam = None
                     for (fk, fop, fv) in st:
-                        if fop == "==" and isinstance(fv, int) and (fk in famvars or fk.endswith("->family")):
+                        if fop == "==" and isinstance(fv, int) and (fk in famvars or FAMILY_KEY.search(fk)):
                             fam = fv
                     out.append((cv(n["r"]), fam))
         return [guards.transfer(st, stmt)]
